@@ -93,6 +93,10 @@ pub fn make_key(pw: &Option<String>, kf: &Option<Vec<u8>>) -> DatabaseKey {
         }
     }
     if let Some(f) = kf {
+        // now and then a wrong file is picked first and then corrected: the key holds the key file given last
+        if uses_decoy(f) {
+            k = k.with_keyfile(&mut &b"not the key file, picked by mistake"[..]).unwrap();
+        }
         // the key file arrives through a reader that delivers it in pieces (a pipe, a chained reader): a conforming `Read`
         let cap = [usize::MAX, 1, 7, 512, 4096][(f.len() + f.first().copied().unwrap_or(0) as usize) % 5];
         k = k.with_keyfile(&mut PieceReader { data: f, pos: 0, cap }).unwrap();
@@ -103,6 +107,11 @@ pub fn make_key(pw: &Option<String>, kf: &Option<Vec<u8>>) -> DatabaseKey {
         }
     }
     k
+}
+
+/// whether `make_key` first hands the key a decoy key file (a function of the key file, so that it replays)
+pub fn uses_decoy(f: &[u8]) -> bool {
+    (f.len() + f.get(1).copied().unwrap_or(0) as usize) % 4 == 3
 }
 
 struct PieceReader<'a> {
@@ -298,7 +307,8 @@ pub fn run(ctx: &mut Ctx) {
             "op": "key",
             "password": pw,
             "keyfile": kf.as_ref().map(|b| json!({"bytes": hex::encode(b), "view": xml_view(b)})),
-            "tags": [format!("keyfile:{}", kf_kind), if pw.is_some() { "password" } else { "no-password" }],
+            "tags": [format!("keyfile:{}", kf_kind), if pw.is_some() { "password" } else { "no-password" }.to_string(),
+                     if kf.as_ref().map(|f| uses_decoy(f)).unwrap_or(false) { "keyfile-given-twice" } else { "keyfile-given-once" }.to_string()],
             "nontrivial": kf.is_some() || pw.as_deref().map(|p| p.is_empty() || !p.is_ascii()).unwrap_or(false),
             "observed": {"save": save_obs, "open_ref": open_obs, "open_perturbed": open_wrong_obs},
             "real": {
